@@ -60,6 +60,7 @@ type AnsSpec struct {
 	OmitAT    bool   `json:"omitAt"`
 	TokenType string `json:"tt"` // default Bearer
 	AudArray  bool   `json:"audArray"`
+	AudMulti  bool   `json:"audMulti"` // the audience is an array naming the client AND a resource server (no azp claim: it is optional)
 	Extra     bool   `json:"extra"`   // extra members in the body
 	IatSkew   int    `json:"iatSkew"` // seconds the provider's clock is ahead: iat and nbf of the ID token lie that far in the future
 	Big       bool   `json:"big"`     // a large (but compliant) answer: ID token with hundreds of groups, a 12 KB extra member
